@@ -9,6 +9,16 @@ NOTE_COMMON = ("Trusted: Lean 4.33 kernel; axioms ⊆ {propext, Classical.choice
                "implementation by differential execution (sampled), not by proof. ")
 
 CLAIMED = {
+ "C17": dict(
+   text=("Lean theorems by kernel evaluation over the regenerated writer tables: every code the writer can emit for a character (basic, special, extended, the "
+         "fallback) and every fixed control word has odd parity in each byte (writer_bytes_odd_parity, fixed_words_odd_parity); for rows 1-15 the writer's "
+         "preamble is decoded by the READER's table as exactly that row at column 0 (writer_pac_decodes_to_row); bottom alignment keeps rows within 1-15 "
+         "(rows_1_15). Executable model of _text_to_code, the pre-roll pass and _format_timestamp compared byte-for-byte with the writer's output; the output is "
+         "checked structurally (header, hex words, parity, rows, 32 columns, breaks at spaces only, non-decreasing timecodes, visible within 3 frames) and "
+         "re-read with the real SCCReader (same words, one caption per caption)."),
+   ref="§3 C17", technique="Lean 4 proof (decide +kernel over generated tables, omega) + byte-level correspondence + structural oracle + re-read",
+   note=NOTE_COMMON + "textwrap.fill is a library step (its contract is checked on the output, the model receives the laid-out lines); _format_timestamp's float floors are modelled exactly in rationals. 'Spaced far enough apart' = start_0 >= (W_0+8) frames and start_i - (W_i+8) frames >= end_{i-1} + 4 frames."),
+
  "C05": dict(
    text=("Lean model of the whole SCC reader state machine (doubling memory, position tracker, three buffers, pop-on queue, timing-correcting stash, "
          "italics passes, caption splitting) over code tables regenerated from scc/constants.py. Theorems: the italics passes yield, for EVERY instruction "
